@@ -235,6 +235,11 @@ func errClass(err error) string {
 // readSession reads stream with the given buffer-size schedule and records Open/Read/Close events.
 // plain != nil means the stream is known to be the canonical coding of plain.
 func readSession(stream []byte, crc bool, sched []int, plain []byte, valid bool, hdrOK bool, decl int, canon func(got []byte) bool) (evs []rec.Event, got []byte, closeErr error) {
+	return readSessionStop(stream, crc, sched, plain, valid, hdrOK, decl, canon, -1)
+}
+
+// readSessionStop: as readSession, but the caller stops reading (and calls Close) once it has stopAfter bytes (-1: reads to the end).
+func readSessionStop(stream []byte, crc bool, sched []int, plain []byte, valid bool, hdrOK bool, decl int, canon func(got []byte) bool, stopAfter int) (evs []rec.Event, got []byte, closeErr error) {
 	defer func() {
 		if p := recover(); p != nil {
 			evs = append(evs, rec.Event{"op": "Panic", "text": fmt.Sprint(p)})
@@ -258,7 +263,13 @@ func readSession(stream []byte, crc bool, sched []int, plain []byte, valid bool,
 			evs = append(evs, rec.Event{"op": "Spin", "reads": i})
 			return
 		}
+		if stopAfter >= 0 && len(got) >= stopAfter {
+			break // the caller loses interest: Close without having read to the end
+		}
 		k := sched[i%len(sched)]
+		if stopAfter >= 0 && k > stopAfter-len(got) {
+			k = stopAfter - len(got)
+		}
 		buf := make([]byte, k)
 		n, err := r.Read(buf)
 		match := true
@@ -710,6 +721,18 @@ func MainHostile(args []string) int {
 			hdr := 4
 			if crc {
 				hdr = 6
+			}
+			// the caller closes a valid stream early: after all but the last 1, 2, 3 bytes (the last Read ends inside the
+			// last token if that is a match), after half, after nothing
+			for _, stop := range []int{len(in.data) - 1, len(in.data) - 2, len(in.data) - 3, len(in.data) / 2, 0} {
+				if stop < 0 || stop >= len(in.data) {
+					continue
+				}
+				for _, sc := range [][]int{{4096}, {1}, {7}} {
+					nCases++
+					evs, _, _ := readSessionStop(valid, crc, sc, in.data, true, true, len(in.data), nil, stop)
+					w.Write(map[string]interface{}{"case": fmt.Sprintf("%s/early-close@%d", in.name, stop), "crc": crc, "len": len(valid), "decl": len(in.data), "sched": sc}, evs)
+				}
 			}
 			// every truncation
 			for k := 0; k < len(valid); k++ {
